@@ -61,7 +61,7 @@ def sources(tier, seed, ctx):
                 n, m = m, n
             srcs.append({'fn': 'mul', 'n': n, 'm': m, 'mode': mode, 'big': rng.random() < 0.5, 'gen': True, 'host': None})
     # nested Karatsuba recursion (max width >= 33) in both endiannesses
-    for n, m, big in ([(33, 33, True), (34, 33, False)] if tier == 'quick' else [(33, 33, True), (34, 33, False), (35, 40, True), (36, 36, True), (41, 33, False)]):
+    for n, m, big in ([(33, 33, True), (34, 33, False), (36, 35, True), (33, 40, True)] if tier == 'quick' else [(33, 33, True), (34, 33, False), (35, 40, True), (36, 36, True), (41, 33, False)]):
         for mode in ('KARATSUBA', 'DEFAULT'):
             srcs.append({'fn': 'mul', 'n': n, 'm': m, 'mode': mode, 'big': big, 'gen': True, 'host': None})
     for n in range(1, (7 if tier == 'quick' else 10) + 1):
@@ -71,6 +71,8 @@ def sources(tier, seed, ctx):
                              'host': {'seed': rng.randrange(10**6), 'ni': 3, 'ng': 4} if n <= 3 and big else None})
     for n in ([15, 47, 48, 49] if tier == 'quick' else [15, 31, 47, 48, 49, 50, 53, 54]):
         srcs.append({'fn': 'square', 'n': n, 'mode': 'DEFAULT', 'big': False, 'gen': True, 'host': None})
+    for n, big in ([(47, True), (50, False)] if tier == 'quick' else [(47, True), (48, False), (50, False), (53, True), (60, True)]):
+        srcs.append({'fn': 'square', 'n': n, 'mode': 'POW2_M1', 'big': big, 'gen': True, 'host': None})
     ctx['gen_note'] = f'{len(srcs)} generator calls'
     return srcs
 
